@@ -70,15 +70,38 @@ def step_replay_case(seed, k, n_warm=12, n_steps=25):
     with contextlib.redirect_stdout(buf), contextlib.redirect_stderr(buf):
         sc = gen_scenario.write(os.path.join(WORK, 'scen', f'c16_{seed}_{k}'), seed * 3001 + k)
         cfg = load_config(sc).suppress_logging()
+        # every other scenario uses the non-default station search of the charging fleet manager
+        if k % 2 == 1:
+            from nrel.hive.dispatcher.instruction_generator.charging_search_type import ChargingSearchType
+            cfg = cfg._replace(dispatcher=cfg.dispatcher._replace(charging_search_type=ChargingSearchType.SHORTEST_TIME_TO_CHARGE))
         rp = load_simulation(cfg)
         rp = hive_cosim.crank(rp, n_warm).runner_payload
         sim, env, step = rp.s, rp.e, rp.u.step_update
         viol = []
         def mask(s):
             return sha(canon(s))
+        from nrel.hive.dispatcher.instruction.instructions import IdleInstruction
+        from nrel.hive.state.simulation_state.update.step_simulation_ops import apply_instructions
+        earlier = sim
         for j in range(n_steps):
             nxt, step2 = step.update(sim, env)
             f0 = mask(nxt)
+            # a BRANCH of the saved state (one vehicle told to idle: same clock, another state) stepped right after the trunk, and
+            # again after a step at another time in between: both results must agree (nothing outside the state may be remembered)
+            if j % 3 == 1 and int(earlier.sim_time) != int(sim.sim_time):
+                busy = sorted(vid for vid, v in sim.vehicles.items() if type(v.vehicle_state).__name__ in ('ChargingStation', 'ChargeQueueing', 'DispatchStation', 'ChargingBase'))
+                for vid in (busy or sorted(sim.vehicles))[:2]:
+                    br = apply_instructions(sim, env, (IdleInstruction(vid),))
+                    r1, _ = step.update(br, env)
+                    step.update(earlier, env)
+                    r2, _ = step.update(br, env)
+                    if mask(r1) != mask(r2):
+                        d1 = {x: type(v.vehicle_state).__name__ for x, v in r1.vehicles.items()}
+                        d2 = {x: type(v.vehicle_state).__name__ for x, v in r2.vehicles.items()}
+                        diff = sorted(x for x in d1 if d1[x] != d2.get(x))
+                        viol.append(('saved_step_stepped_twice_differs', {'step_index': j, 'sim_time': int(sim.sim_time), 'branch': f'IdleInstruction({vid})',
+                                                                           'vehicles_that_differ': diff[:5], 'first_vs_second': [(d1.get(x), d2.get(x)) for x in diff[:3]]}))
+                        return viol
             a, _ = step.update(sim, env)
             b, _ = step.update(sim, env)
             if mask(a) != f0 or mask(b) != f0:
